@@ -99,16 +99,21 @@ def check_formatter(ctx, cls):
 
     paths = run(ctx, ex, thunk)
     rets = returns(paths)
-    if len(rets) != 1:
-        ctx.undecided(rule, cls.name, f.loc(), f"{len(paths)} paths through the formatter")
+    if not rets:
+        ctx.undecided(rule, cls.name, f.loc(), f"no returning path through the formatter ({len(paths)} paths)")
         return
-    p = rets[0]
+    for k, p in enumerate(rets):
+        _formatter_path(ctx, cls, f, ex, st, p, "" if len(rets) == 1 else f"#{k}")
+
+
+def _formatter_path(ctx, cls, f, ex, st, p, sfx):
+    rule = "C04.a FORMATTER"
     ctor = [e for e in p.events if e.kind == "pandas_ctor" and e.func is not None and e.func.qualname == f.qualname]
     if len(ctor) != 1 or ctor[0].data["which"] != "frame":
-        ctx.violation(rule, cls.name, f.loc(), "the formatter does not build exactly one DataFrame", found=[e.data["which"] for e in ctor])
+        ctx.violation(rule, cls.name + sfx, f.loc(), "the formatter does not build exactly one DataFrame", found=[e.data["which"] for e in ctor])
         return
     e = ctor[0]
-    ctx.check(e.data.get("index") is None, rule, f"{cls.name}|range-index", e.loc(), "the sparse output has the default 0..K-1 RangeIndex (no index= is passed)", found=valkey(e.data.get("index")))
+    ctx.check(e.data.get("index") is None, rule, f"{cls.name}|range-index{sfx}", e.loc(), "the sparse output has the default 0..K-1 RangeIndex (no index= is passed)", found=valkey(e.data.get("index")))
     kw = e.data["kwargs"]
     if cls.name == "ChangeDetector":
         cols = kw.get("columns")
@@ -116,15 +121,15 @@ def check_formatter(ctx, cls):
         dt = kw.get("dtype")
         okd = isinstance(dt, StrV) and dt.s == "int64"
         okdata = e.data["data"] is st["arg"] or (isinstance(e.data["data"], ListV) and e.data["data"].lid == st["arg"].lid)
-        ctx.check(okc and okd and okdata, rule, "ChangeDetector|frame", e.loc(), "one column `ilocs` of dtype int64 holding the changepoints as given", found={"columns": valkey(cols), "dtype": valkey(dt)})
+        ctx.check(okc and okd and okdata, rule, f"ChangeDetector|frame{sfx}", e.loc(), "one column `ilocs` of dtype int64 holding the changepoints as given", found={"columns": valkey(cols), "dtype": valkey(dt)})
         return
     d = e.data["data"]
     if not isinstance(d, DictV):
-        ctx.violation(rule, f"{cls.name}|frame", e.loc(), "the anomaly frame is not built from named columns", found=repr(d)[:100])
+        ctx.violation(rule, f"{cls.name}|frame{sfx}", e.loc(), "the anomaly frame is not built from named columns", found=repr(d)[:100])
         return
     cols = {k.s: v for k, v in d.items if isinstance(k, StrV)}
     want_cols = ["ilocs", "labels"] + (["icolumns"] if cls.name.startswith("Subset") else [])
-    ctx.check(list(cols) == want_cols, rule, f"{cls.name}|columns", e.loc(), f"columns {want_cols}", found=list(cols))
+    ctx.check(list(cols) == want_cols, rule, f"{cls.name}|columns{sfx}", e.loc(), f"columns {want_cols}", found=list(cols))
     il = cols.get("ilocs")
     okil = isinstance(il, OpaqueV) and il.meta.get("kind") == "intervalindex"
     closed_ok = False
@@ -137,7 +142,7 @@ def check_formatter(ctx, cls):
         if comp is not None:
             el = comp["elem"]
             pairs_ok = isinstance(el, TupleV) and len(el.items) == 2 and all(isinstance(x, Num) and x.dtype == "int" for x in el.items) and nf_equal(el.items[0].nf, sym("lo")) and nf_equal(el.items[1].nf, sym("hi")) and not comp["conds"]
-    ctx.check(okil and pairs_ok, rule, f"{cls.name}|intervals", e.loc(), "ilocs = IntervalIndex.from_tuples([(int(start), int(end)) for every anomaly]) - one interval per anomaly, none dropped", found=valkey(il)[:120])
+    ctx.check(okil and pairs_ok, rule, f"{cls.name}|intervals{sfx}", e.loc(), "ilocs = IntervalIndex.from_tuples([(int(start), int(end)) for every anomaly]) - one interval per anomaly, none dropped", found=valkey(il)[:120])
     # closed defaults to "left" and is forwarded
     dflt = None
     a = f.node.args
@@ -146,10 +151,10 @@ def check_formatter(ctx, cls):
         di = names.index("closed") - (len(names) - len(a.defaults))
         if di >= 0 and isinstance(a.defaults[di], ast.Constant):
             dflt = a.defaults[di].value
-    ctx.check(okil and dflt == "left" and _forwards_closed(f), rule, f"{cls.name}|left-closed", e.loc(), "intervals are left-closed by default and `closed` is forwarded to from_tuples", found=f"default {dflt!r}")
+    ctx.check(okil and dflt == "left" and _forwards_closed(f), rule, f"{cls.name}|left-closed{sfx}", e.loc(), "intervals are left-closed by default and `closed` is forwarded to from_tuples", found=f"default {dflt!r}")
     lb = cols.get("labels")
     oklb = isinstance(lb, OpaqueV) and lb.meta.get("kind") == "rangeindex" and len(lb.meta["args"]) == 2 and isinstance(lb.meta["args"][0], Num) and lb.meta["args"][0].nf.as_const() == 1 and isinstance(lb.meta["args"][1], Num) and _is_len_plus_one(lb.meta["args"][1].nf)
-    ctx.check(oklb, rule, f"{cls.name}|labels", e.loc(), "labels = RangeIndex(1, K + 1): anomalies are numbered 1..K", found=valkey(lb)[:100])
+    ctx.check(oklb, rule, f"{cls.name}|labels{sfx}", e.loc(), "labels = RangeIndex(1, K + 1): anomalies are numbered 1..K", found=valkey(lb)[:100])
     if "icolumns" in cols:
         ic = cols["icolumns"]
         comp = getattr(ic, "comp", None)
